@@ -95,10 +95,33 @@ def err_sites(body, variant=None, adt=r"error::SignatureError$"):
 def result_aggs(body, variant, own_return=True):
     """`Result::Ok{..}` / `Result::Err{..}` constructions; by default only those written to the function's own return
     place (a helper that was inlined writes its result to a temporary)."""
-    out = body.aggregates(adt=r"^std::result::Result$", variant=variant)
+    out = body.aggregates(adt=r"^std::result::Result$", variant=variant, include_syn=own_return)
     if own_return:
-        out = [x for x in out if x[2]["place"]["local"] == 0 and not x[2]["place"]["proj"]]
+        # a combinator desugared in tail position (`x.ok_or_else(f)` as the function's last expression) writes the
+        # function's own Ok/Err: synthetic statements count when they target the return place
+        ret = return_carriers(body)
+        out = [x for x in out if x[2]["place"]["local"] in ret and not x[2]["place"]["proj"]]
     return out
+
+
+def return_carriers(body):
+    """Locals whose value is the function's result: _0 and temporaries moved into it by plain moves
+    (`let r = ..; r` / a desugared combinator in tail position)."""
+    if getattr(body, "_retc", None) is not None:
+        return body._retc
+    ret = {0}
+    work = [0]
+    while work:
+        l = work.pop()
+        for d in body.defs().get(l, []):
+            if d["kind"] == "assign" and d["stmt"]["rv"]["k"] == "use" and not d["stmt"]["place"]["proj"]:
+                p = op_place(d["stmt"]["rv"]["op"])
+                if p is not None and not p["proj"] and p["local"] not in ret and "move" in d["stmt"]["rv"]["op"]:
+                    # only temporaries that are not used for anything else
+                    ret.add(p["local"])
+                    work.append(p["local"])
+    body._retc = ret
+    return ret
 
 
 def guard_conditions(body, block):
